@@ -1823,13 +1823,26 @@ func (g *G) funcDef() ts.Stmt {
 		r := ts.Return{}
 		// several returned values that are DIRECTLY call results (return high(n), low(n)): every result must be saved
 		// before the next call overwrites the return registers
-		direct := nr > 1 && g.chance("return-direct-calls", 35)
-		for _, rt := range fi.Rets {
+		direct := nr > 1 && g.chance("return-direct-calls", 55)
+		for ri, rt := range fi.Rets {
 			if direct {
 				if cs := g.callsReturning(rt); len(cs) > 0 {
 					r.Vals = append(r.Vals, g.callExpr(cs[g.intn("fn", 0, len(cs)-1)], 1))
 					g.tag("return-of-direct-calls")
 					continue
+				}
+				// no function of that type: a later value still CONTAINS a call where one of a convertible type exists
+				if ri > 0 && rt == ts.TString {
+					if cs := g.callsReturning(ts.TInt); len(cs) > 0 {
+						r.Vals = append(r.Vals, ts.Itoa{X: g.callExpr(cs[g.intn("fn", 0, len(cs)-1)], 1)})
+						continue
+					}
+				}
+				if ri > 0 && rt == ts.TBool {
+					if cs := g.callsReturning(ts.TInt); len(cs) > 0 {
+						r.Vals = append(r.Vals, ts.Cmp{Op: ">", L: g.callExpr(cs[g.intn("fn", 0, len(cs)-1)], 1), R: ts.IntLit{V: 0}})
+						continue
+					}
 				}
 			}
 			r.Vals = append(r.Vals, g.expr(rt, g.intn("ret-depth", 0, g.cfg.ExprDepth)))
